@@ -5,7 +5,7 @@ tasks and futures are the stock implementation.  Only three things differ:
 
 * `time()` is a virtual clock.  The selector never blocks: `select(timeout)` with nothing
   ready advances the virtual clock by `timeout` and returns []; every loop iteration
-  additionally costs 1 virtual microsecond (a real clock never stands still).  (`select(None)` = the loop
+  additionally costs 50 virtual microseconds (a real clock never stands still).  (`select(None)` = the loop
   has neither ready handles nor timers = nothing can ever happen again: `LoopStalled`.)
 * `getaddrinfo` / `create_datagram_endpoint` hand out `VDatagramTransport`s wired to a `VNet`
   (same call protocol as the selector transport: `connection_made` through call_soon, then
@@ -71,7 +71,7 @@ class VLoop(asyncio.SelectorEventLoop):
     def __init__(self, seed=0, max_lateness=0.0, wall_limit=60.0, iteration_cap=3_000_000):
         self._vtime = 0.0
         self.iterations = 0
-        self.tick = 1e-6  # virtual seconds consumed by one loop iteration
+        self.tick = 5e-5  # virtual seconds consumed by one loop iteration (a Python callback round costs 20-500 us)
         self.clock_jumps = 0
         self.iteration_cap = iteration_cap
         self.wall_deadline = _walltime.monotonic() + wall_limit
@@ -82,6 +82,7 @@ class VLoop(asyncio.SelectorEventLoop):
         self.max_lateness = max_lateness
         self.timers_armed = 0
         self.timers_late = 0
+        self.timers_armed_in_past = 0  # protocol timers armed for a deadline more than 1 ms in the past (busy-spin symptom)
         self.trace_hook = None  # callable(kind, owner) just before a traced callback runs
         self.timer_of = {}  # id(owner) -> latest TimerHandle armed for owner._handle_timer
         self._endpoint_count = 0
@@ -104,6 +105,8 @@ class VLoop(asyncio.SelectorEventLoop):
         owner = getattr(callback, "__self__", None)
         if owner is not None and getattr(callback, "__name__", "") == "_handle_timer" and isinstance(owner, asyncio.BaseProtocol):
             self.timers_armed += 1
+            if when < self._vtime - 1e-3:
+                self.timers_armed_in_past += 1
             if self.max_lateness > 0.0:
                 r = self._late_rng.random()
                 # half of the timers are punctual, the others up to max_lateness late
